@@ -143,6 +143,16 @@ def check(ctx):
     ifs = [n for n in walk_no_nested(caa) if isinstance(n, ast.If)]
     ok = len(ifs) == 1 and eqv(ifs[0].test, "y is None") and all(eqv(r.value, "x") for r in returns(ifs[0]) if r in ifs[0].body) and any(eqv(r.value, "aggregate(x, y)") for r in returns(caa))
     ctx.ob("ALG.scan-carry.apply", caa, "_cum_aggregate_apply(aggregate, x, y): x if y is None else aggregate(x, y) (the aggregate itself handles a missing x)", ok, "" if ok else "returning x when x is None keeps the carry None for ever after leading all-NaN/empty partitions: cumsum/cumprod restart at every later partition")
+    # ---------------- limited ffill/bfill: exactly `limit` rows are borrowed from the neighbouring partition
+    ffc = ctx.model.module("dask/dataframe/dask_expr/_expr.py")
+    fb_ = ffc.func("FFill.before")
+    ok = (all(eqv(r.value, "1 if self.limit is None else self.limit") for r in returns(fb_)) and bool(returns(fb_)))
+    ctx.ob("ALG.fill.overlap-limit", fb_, "FFill.before = 1 if limit is None else limit", ok, "" if ok else "with fewer borrowed rows a NaN run crossing a partition boundary is filled less far than pandas fills it")
+    # ---------------- cumulative / overlap predicates are never evaluated on the unfiltered frame (optimizer guard, see C43)
+    dor46 = ctx.model.module("dask/dataframe/dask_expr/_expr.py").func("_depends_on_other_rows")
+    listed46 = {n.id for r in returns(dor46) for n in ast.walk(r.value) if isinstance(n, ast.Name)}
+    need46 = {"MapOverlap", "MapOverlapAlign", "CreateOverlappingPartitions", "CumulativeAggregations", "CumulativeBlockwise", "CumulativeFinalize", "RollingReduction", "RollingAggregation"}
+    ctx.ob("TAB.neighbour-dependent.classes", dor46, f"_depends_on_other_rows covers the abstract and the lowered forms of cumulative, overlap and rolling operations", need46 <= listed46, "" if need46 <= listed46 else f"missing: {sorted(need46 - listed46)} -- x = df[p0]; x[x.b.cumsum() > k] is merged into one filter and the scan runs over the unfiltered rows")
 
 
 VARIANTS = [
